@@ -2,6 +2,7 @@
 # usage: tools/seed_confirm.sh <seed-id>...   (runs in the shared scratch worktree /tmp/wt_mut that has a complete build of HEAD)
 # For each seed: apply patch.diff, rebuild incrementally, run the COMPLETE test suite, build+run the demo against the patched and
 # the unpatched library, restore the worktree. Appends one line per seed to /verif/seeded/CONFIRM.log.
+exec 9>/tmp/seed_confirm.lock; flock -n 9 || { echo 'another seed_confirm is running (shared worktree): refusing to start'; exit 3; }
 W=/tmp/wt_mut; L=$W/_build/gnu_12.2_cxx11_64_relwithdebinfo; L0=/repo/_build/gnu_12.2_cxx11_64_relwithdebinfo
 for id in "$@"; do
   S=/verif/seeded/$id; cd $W && git checkout -q -- . && git apply $S/patch.diff || { echo "$id: patch does not apply" >> /verif/seeded/CONFIRM.log; continue; }
